@@ -104,6 +104,9 @@ CHECKS = {
 
 # properties whose quick check has been run green on the unchanged tree (others are listed as not yet claimed)
 READY = {"C%02d" % i for i in range(1, 21)}
+QUICK_WALL = ("C01 279, C02 150, C03 246, C04 335, C05 293, C06 201, C07 288, C08 304, C09 108, C10 223, C11 180, C12 29, C13 86, C14 286, "
+              "C15 148, C16 217, C17 233, C18 191, C19 87, C20 67")
+THOROUGH_WALL = "see DESIGN.md 9.7 for the runs completed end to end in the build round and their wall times"
 NOT_YET = "check not built yet in this round (design in DESIGN.md section 3); no claim is made"
 
 NA = {}
@@ -150,7 +153,8 @@ def main():
         "checks": checks,
         "not_applicable": na,
         "notes": "exit 0 = all obligations decisive and no unlisted violation; 1 = VIOLATION (replayed on the real code); 2 = INCONCLUSIVE "
-                 "(timeout/unknown/non-replaying model; never a claim). Known findings and repairs: KNOWN_FINDINGS.txt.",
+                 "(timeout/unknown/non-replaying model; never a claim). Known findings and repairs: KNOWN_FINDINGS.txt. "
+                 "Quick tier, wall seconds on the idle 16-core sandbox (seed 0): " + QUICK_WALL + ". Thorough tier: " + THOROUGH_WALL,
     }
     json.dump(m, open(os.path.join(ROOT, "MANIFEST.json"), "w"), indent=1)
     print("MANIFEST.json: %d checks, %d not_applicable" % (len(checks), len(na)))
